@@ -20,8 +20,16 @@ par g++ -c $CF -Wno-return-local-addr $H/c02_shim.cpp -o $BUILD/shim.o
 # have (then an embedded build could not compile them either - not a statement of this property); the run is
 # left out instead of failing the whole build
 par sh -c "g++ -c $CF -Wno-return-local-addr $H/c02_flatvec.cpp -o $BUILD/flatvec.o 2>$BUILD/flatvec.log || { rm -f $BUILD/flatvec.o; echo 'note: flat_map/flat_set do not compile over igris::vector; run flat_on_igris_vector skipped'; }"
+# second build of the vector TUs: the other compiler (argument evaluation order, folding) at -O2 and with
+# -DNDEBUG (an assert that carries a side effect vanishes); it re-runs a representative selection
+CFC="-DTIER_THOROUGH=$TT -DNDEBUG -std=c++17 -O2 -g1 -fsanitize=address -fno-omit-frame-pointer -I$REPO -I$MC -I$H"
+par clang++ -c $CFC $H/c02_main.cpp -o $BUILD/main_clang.o
+par clang++ -c $CFC $H/c02_main_large.cpp -o $BUILD/main_large_clang.o
+par clang++ -c $CFC -DTWIN_HAS_ERASE_RANGE=$TW $H/c02_twin.cpp -o $BUILD/twin_clang.o
 par g++ -std=c++17 -O2 -c -I$MC $MC/mc.cpp -o $BUILD/mc.o
 parwait
+par clang++ -fsanitize=address $BUILD/main_clang.o $BUILD/main_large_clang.o $BUILD/mc.o -o $BUILD/c02_main_clang
+par clang++ -fsanitize=address $BUILD/twin_clang.o $BUILD/mc.o -o $BUILD/c02_twin_clang
 par g++ -fsanitize=address $BUILD/main.o $BUILD/main_large.o $BUILD/main_flat.o $BUILD/mc.o -o $BUILD/c02_main
 par g++ -fsanitize=address $BUILD/twin.o $BUILD/mc.o -o $BUILD/c02_twin
 par g++ -fsanitize=address $BUILD/shim.o $BUILD/mc.o -o $BUILD/c02_shim
@@ -40,6 +48,8 @@ echo "portable_vector_tracked $BUILD/c02_twin --only vector_tracked"
 echo "portable_vector_3values $BUILD/c02_twin --only vector_3values"
 echo "portable_vector_large $BUILD/c02_twin --only large_"
 echo "portable_vector_extra $BUILD/c02_twin --only extra_"
+echo "vector_clang_ndebug $BUILD/c02_main_clang --only vector_tracked,extra_,large_vec_tracked"
+echo "portable_vector_clang_ndebug $BUILD/c02_twin_clang --only vector_tracked,extra_,large_portable_vec_tracked"
 echo "compat_shims $BUILD/c02_shim"
 [ -f $BUILD/flatvec.o ] && echo "flat_on_igris_vector $BUILD/c02_flatvec"
 true
